@@ -2,6 +2,7 @@ package sym
 
 import (
 	"fmt"
+	"strconv"
 	"go/types"
 	"os"
 	"path/filepath"
@@ -122,6 +123,11 @@ func NewExec(l *Loaded) *Exec {
 		}
 	}
 	x.RepoDir = l.Repo
+	if v := os.Getenv("VERIF_NLFEAS_MS"); v != "" {
+		if n, err := strconv.Atoi(v); err == nil {
+			x.NLFeasTimeout = time.Duration(n) * time.Millisecond
+		}
+	}
 	x.registerIntrinsics()
 	return x
 }
